@@ -5,8 +5,10 @@
 package main
 
 import (
+	"encoding/json"
 	"fmt"
 	"os"
+	"os/exec"
 
 	"verif/core"
 )
@@ -20,12 +22,28 @@ func main() {
 		fmt.Fprintln(os.Stderr, "usage: conc <property> | conc replay <file>")
 		os.Exit(2)
 	}
+	if os.Args[1] == "replay" {
+		os.Exit(replayFile(os.Args[2]))
+	}
+	if f := os.Getenv("VERIF_REPLAY_FILE"); f != "" {
+		loadReplay(f)
+	}
 	if os.Args[1] == "smoke" {
 		smoke()
 		return
 	}
 	if sc, ok := subcommands[os.Args[1]]; ok {
 		sc(os.Args[2])
+		if r := replayReq; r != nil {
+			switch {
+			case !r.Seen:
+				fmt.Println("  scenario not found in this shard")
+				os.Exit(2)
+			case r.Hit:
+				os.Exit(1)
+			}
+			fmt.Println("  not reproduced")
+		}
 		return
 	}
 	f, ok := registry[os.Args[1]]
@@ -36,4 +54,97 @@ func main() {
 	rep := core.NewReport(os.Args[1])
 	f(rep)
 	os.Exit(rep.Finish())
+}
+
+type replayArtefact struct {
+	Property string `json:"property"`
+	Key      string `json:"key"`
+	Replay   struct {
+		Engine   string          `json:"engine"`
+		Check    string          `json:"check"`
+		Sub      string          `json:"sub"`
+		Shard    string          `json:"shard"`
+		Scenario string          `json:"scenario"`
+		Program  [][]int         `json:"program"`
+		Init     int             `json:"init"`
+		A        string          `json:"a"`
+		B        string          `json:"b"`
+		Choices  []int           `json:"choices"`
+		Path     json.RawMessage `json:"path"`
+	} `json:"replay"`
+}
+
+func readArtefact(file string) (*replayArtefact, error) {
+	b, err := os.ReadFile(file)
+	if err != nil {
+		return nil, err
+	}
+	var a replayArtefact
+	if err := json.Unmarshal(b, &a); err != nil {
+		return nil, err
+	}
+	return &a, nil
+}
+
+// loadReplay puts a worker into replay mode: only the recorded scenario runs, once, under the recorded choices.
+func loadReplay(file string) {
+	a, err := readArtefact(file)
+	if err != nil {
+		fmt.Fprintln(os.Stderr, "replay:", err)
+		os.Exit(2)
+	}
+	r := &struct {
+		Scenario string
+		Choices  []int
+		Key      string
+		Hit      bool
+		Seen     bool
+	}{Scenario: a.Replay.Scenario, Choices: a.Replay.Choices, Key: a.Key}
+	switch a.Replay.Check {
+	case "C01":
+		r.Scenario = fmt.Sprintf("%d|%s|%s", a.Replay.Init, a.Replay.A, a.Replay.B)
+	case "C02":
+		r.Scenario = fmt.Sprint(a.Replay.Program)
+	}
+	replayReq = r
+}
+
+// replayFile re-executes a replay artefact in a worker subprocess (its own race-detector log for C01).
+func replayFile(file string) int {
+	a, err := readArtefact(file)
+	if err != nil {
+		fmt.Fprintln(os.Stderr, "replay:", err)
+		return 2
+	}
+	if len(a.Replay.Path) > 0 && string(a.Replay.Path) != "null" {
+		return c08replaySeq(a, file)
+	}
+	sub, shard := a.Replay.Sub, a.Replay.Shard
+	if sub == "" {
+		sub = a.Replay.Check + "worker"
+	}
+	if shard == "" && a.Replay.Check == "C02" {
+		shard = fmt.Sprintf("%s:%d", a.Replay.Scenario, a.Replay.Init)
+	}
+	if _, ok := subcommands[sub]; !ok || shard == "" {
+		fmt.Fprintln(os.Stderr, "replay: artefact does not name a worker and shard (produced by an older version?)")
+		return 2
+	}
+	cmd := exec.Command(os.Args[0], sub, shard)
+	cmd.Env = append(os.Environ(), "VERIF_REPLAY_FILE="+file, "GOMAXPROCS=2")
+	if a.Replay.Check == "C01" {
+		dir, _ := os.MkdirTemp("", "tsan")
+		defer os.RemoveAll(dir)
+		cmd.Env = append(cmd.Env, "VERIF_TSAN_DIR="+dir, "GORACE=halt_on_error=0 exitcode=0 log_path="+dir+"/tsan")
+	}
+	cmd.Stdout, cmd.Stderr = os.Stdout, os.Stderr
+	err = cmd.Run()
+	if ee, ok := err.(*exec.ExitError); ok && ee.ExitCode() == 1 {
+		fmt.Printf("VIOLATION property=%s replay=%s\n", a.Property, file)
+		return 1
+	}
+	if err != nil {
+		return 2
+	}
+	return 0
 }
